@@ -263,11 +263,21 @@ def count(rel, pattern, at_least_one=True):
         return n
     return f
 
+def main_wiring():
+    """main.rs in the shape `let limiter_handle = <expr>; ... transport.start(limiter_handle)` once per transport;
+    any other shape (a loop over a table of transports, a helper that starts them) is `not located`"""
+    text = code(MAINRS)
+    hs = re.findall(r"let\s+limiter_handle\s*=\s*([^;]+);", text)
+    starts = re.findall(r"transport\.start\(\s*limiter_handle\s*\)", text)
+    if not hs or len(hs) != len(starts):
+        raise NotLocated(f"main.rs: {len(hs)} `let limiter_handle = ..` vs {len(starts)} `transport.start(limiter_handle)`")
+    return len(starts), sum(1 for h in hs if h.strip() == "limiter.clone()")
+
 def handles_cloned():
-    hs = re.findall(r"let\s+limiter_handle\s*=\s*([^;]+);", code(MAINRS))
-    if not hs:
-        raise NotLocated("main.rs: no `let limiter_handle = ..`")
-    return sum(1 for h in hs if h.strip() == "limiter.clone()")
+    return main_wiring()[1]
+
+def transport_starts():
+    return main_wiring()[0]
 
 def metric_calls(rel):
     def f():
@@ -334,7 +344,7 @@ ITEMS = [
     ("HTTP_DEFAULT_QUANTITY", "nat", "http.rs quantity.unwrap_or", None,
      lambda: num(norm_expr(need(code(HTTP), r"quantity\s*:\s*(?:req\.)?quantity\.unwrap_or\(\s*(\w+)\s*\)", "HTTP default quantity").group(1), code(HTTP)))),
     ("MAIN_CREATE_LIMITER_CALLS", "nat", "main.rs: number of calls of store::create_rate_limiter", None, count(MAINRS, r"create_rate_limiter\s*\(")),
-    ("MAIN_TRANSPORT_STARTS", "nat", "main.rs: number of transport.start(..) calls", None, count(MAINRS, r"transport\.start\(\s*(\w+)\s*\)")),
+    ("MAIN_TRANSPORT_STARTS", "nat", "main.rs: number of transport.start(..) calls", None, transport_starts),
     ("MAIN_HANDLES_CLONED_FROM_LIMITER", "nat", "main.rs: transport handles that are `limiter.clone()`", None, handles_cloned),
     ("MAIN_METRICS_BUILDS", "nat", "main.rs: number of Metrics instances built", None, count(MAINRS, r"Metrics::builder\(\)")),
     ("STORE_SPAWN_CALLS", "nat", "store.rs: actor spawns (one per store kind branch)", None, count(STORERS, r"RateLimiterActor::spawn_\w+\(")),
